@@ -127,6 +127,8 @@ def run_scenario(cfg, plan=None, extra_after=None, max_steps=400000):
         CLOCK.drive(duration=bound, max_steps=max_steps)
     except StepBudgetExceeded as err:
         res.budget_exceeded = str(err)
+    if lan.overflow:
+        res.budget_exceeded = "more than %d frames for one transaction" % lan.frame_cap
     return res
 
 
@@ -261,6 +263,10 @@ def check_wire(res, report, stats=None):
             tr = transfers.setdefault(key, {"next": 0, "last_seen_final": False, "acked": -1, "win": 1, "proposed": None, "segments": 0})
             tr["segments"] += 1
             seq = ap["seq"]
+            if seq == 0 and ap["mor"] and tr["last_seen_final"]:
+                # the whole message is sent again (request retry after the request timeout): a new transfer
+                segs = tr["segments"]
+                tr.update({"next": 0, "last_seen_final": False, "acked": -1, "win": 1, "proposed": None, "restarts": tr.get("restarts", 0) + 1})
             if seq == tr["next"] % 256 and not (tr["last_seen_final"]):
                 idx = tr["next"]
                 tr["next"] += 1
